@@ -47,28 +47,48 @@ def r_serde(f):
         R.fail(ser.ident, "t1:writer:%s" % ",".join("%s=%s" % p for p in pairs), "the owned array's serialiser writes %s; every key must carry the struct field of the same name and all of %s must be written" % (pairs, sorted(want)), ser.where())
 
     # ---- t1 (view writers): literal <-> getter of the same name; "data" <-> cells()
-    for who in ("TooDeeView", "TooDeeViewMut"):
-        b = f.get("%s as Serialize::serialize" % who)
-        if b is None:
-            raise AnchorMissing("impl Serialize for %s" % who)
+    size_map = size_components(f)
+
+    def writer_pairs(b, selfparam=1, depth=0):
         d = Dfx(b)
         pairs = []
         for bi, t, fn in b.calls():
             if fn and fn["name"] == "serialize_field":
                 lit = const_str(d.expr(t["args"][1]))
                 v = strip(d.expr(t["args"][2]))
-                calls = [x[2] for x in walk(v) if x[0] == "call" and (x[4] or {}).get("krate") == f.raw["crate"]]
-                getter = calls[0] if calls else None
+                getter = None
+                for x in walk(v):
+                    if x[0] == "call" and ((x[4] or {}).get("krate") == f.raw["crate"] or (x[4] or {}).get("resolved_krate") == f.raw["crate"]):
+                        getter = x[2]
+                        break
+                # a component of size(): (num_cols, num_rows)
+                for x in walk(v):
+                    if x[0] == "field" and strip(x[1])[0] == "call" and strip(x[1])[2] == "size" and x[2] in size_map:
+                        getter = size_map[x[2]]
                 if lit == "data":
                     names = [x[2] for x in walk(v) if x[0] == "call"]
                     getter = "cells" if "cells" in names else (names[0] if names else None)
                 pairs.append((lit, getter))
+        if not pairs and depth < 2:
+            # the body may have moved into a crate-local helper that receives the view
+            for bi, t, fn in b.calls():
+                cb = f.crate_fn_for_call(fn) if fn else None
+                if cb is not None and cb.id != b.id and any(strip(d.expr(a)) in (("param", selfparam), ("deref", ("param", selfparam))) for a in t["args"]):
+                    sub = writer_pairs(cb, 1, depth + 1)
+                    if sub:
+                        return sub
+        return pairs
+
+    for who in ("TooDeeView", "TooDeeViewMut"):
+        b = f.get("%s as Serialize::serialize" % who)
+        if b is None:
+            raise AnchorMissing("impl Serialize for %s" % who)
+        pairs = writer_pairs(b)
         n += 1
         ok = len(pairs) == 3 and {a for a, _ in pairs} == want and all((k == g) or (k == "data" and g == "cells") for k, g in pairs)
         R.inst(b.ident, "t1 view writer emits (key, getter) pairs %s" % pairs, ok)
         if not ok:
             R.fail(b.ident, "t1:view-writer:%s" % ",".join("%s=%s" % p for p in pairs), "%s writes %s; each key must be paired with the getter of the same name and \"data\" with cells()" % (b.ident, pairs), b.where())
-        # the struct name and field count agree with the derived writer
     # ---- reader
     vm = f.get("TooDeeVisitor as Visitor::visit_map")
     if vm is None:
@@ -248,7 +268,7 @@ def r_serde(f):
             e = strip(d.expr(tt["discr"]))
             tm = dict((int(a), b2) for a, b2 in tt["targets"])
             false_succ = tm.get(0, tt["otherwise"])
-            true_succ = tt["otherwise"] if 0 in tm else tm.get(1)
+            true_succ = tm.get(1) if 1 in tm else tt["otherwise"]
             reach_t = bi in vm.reachable(true_succ) if true_succ is not None else False
             reach_f = bi in vm.reachable(false_succ)
             if kind == "K_OVF":
@@ -261,7 +281,7 @@ def r_serde(f):
                         hit = "discr"
                 if hit == "flag" and reach_f and not reach_t:
                     ok, why = True, "overflow flag of overflowing_mul(num_cols, num_rows) branches to Err"
-                if hit == "discr" and (reach_t != reach_f):
+                if hit == "discr" and reach_t and not reach_f:
                     ok, why = True, "checked_mul(num_cols, num_rows) None branches to Err"
             if kind == "K_LEN" and e[0] == "bin" and e[1] in ("Ne", "Eq"):
                 sides = [strip(e[2]), strip(e[3])]
@@ -279,6 +299,21 @@ def r_serde(f):
     return R, n
 
 
+def size_components(f):
+    """tuple component -> getter name of the provided `size()` (today (num_cols, num_rows)), read from its own body"""
+    out = {}
+    for b in f.fn_bodies:
+        if b.name == "size" and b.trait_provided and b.trait_head == "TooDeeOps":
+            d = Dfx(b)
+            e = strip(d.local_expr(0))
+            if e[0] == "agg" and e[1] == "tuple":
+                for i, x in enumerate(e[2]):
+                    x = strip(x)
+                    if x[0] == "call":
+                        out[i] = x[2]
+    return out
+
+
 def _same_pair(args, dim_args):
     a = [strip(x) for x in args]
     return len(a) == 2 and len(dim_args) >= 2 and ((a[0] == dim_args[0] and a[1] == dim_args[1]) or (a[0] == dim_args[1] and a[1] == dim_args[0]))
@@ -290,6 +325,10 @@ def _is_product(e, dim_args):
         return True
     if e[0] == "bin" and e[1].startswith("Mul") and _same_pair([e[2], e[3]], dim_args):
         return True
+    if e[0] == "field" and e[2] == 0 and strip(e[1])[0] == "downcast" and strip(e[1])[2] == "Some":
+        inner = strip(strip(e[1])[1])
+        if inner[0] == "call" and inner[2] == "checked_mul" and _same_pair(inner[3], dim_args):
+            return True
     if e[0] == "call" and e[2] in ("unwrap", "unwrap_unchecked") and e[3] and strip(e[3][0])[0] == "call" and strip(e[3][0])[2] == "checked_mul" and _same_pair(strip(e[3][0])[3], dim_args):
         return True
     return False
